@@ -117,4 +117,34 @@ theorem pe_clusters (net : PE.Net ℝ) (np : Ls.Net.NetProblem ℝ) (u : Unknown
 def flipY : CS → CS
   | .EN => .ES | .ES => .EN | .NW => .NE | .NE => .NW | .SE => .SW | .SW => .SE | .WS => .WN | .WN => .WS
 
+
+/-! ### renaming the points: lifted from one observation (`runEvs_rename`) to the whole pass -/
+
+/-- the same observation with every unknown's identity relabelled by `f` -/
+def renOb {K : Type} (f : Unk → Unk) (ob : Lin.Ob K) : Lin.Ob K := ⟨fun r c => f (ob.name r c), ob.evs⟩
+
+theorem runAll_rename {K : Type} (f : Unk → Unk) (hf : Function.Injective f) : ∀ (L : List (Lin.Ob K)) (s : IdxState),
+    runAll (L.map (renOb f)) (s.mapKeys f) = ((runAll L s).1.mapKeys f, (runAll L s).2)
+  | [], _ => rfl
+  | ob :: t, s => by
+    show (let r := runEvs (fun r c => f (ob.name r c)) ob.evs (s.mapKeys f)
+          let r2 := runAll (t.map (renOb f)) r.1
+          (r2.1, r.2 :: r2.2)) = _
+    simp only [runEvs_rename f hf, runAll_rename f hf t]
+    rfl
+
+theorem orderList_rename {K : Type} {m : Nat} (f : Unk → Unk) (obs : Fin m → Lin.Ob K) (σ : Equiv.Perm (Fin m)) :
+    orderList (fun i => renOb f (obs i)) σ = (orderList obs σ).map (renOb f) := by
+  unfold orderList
+  rw [List.map_ofFn]
+  rfl
+
+theorem finalState_rename {K : Type} {m : Nat} (f : Unk → Unk) (hf : Function.Injective f) (obs : Fin m → Lin.Ob K)
+    (σ : Equiv.Perm (Fin m)) :
+    finalState (fun i => renOb f (obs i)) σ = (finalState obs σ).mapKeys f ∧
+    rowsOf (fun i => renOb f (obs i)) σ = rowsOf obs σ := by
+  unfold finalState rowsOf
+  rw [orderList_rename, show IdxState.init = IdxState.init.mapKeys f from rfl, runAll_rename f hf]
+  exact ⟨rfl, rfl⟩
+
 end Gama.C07Mir
